@@ -85,6 +85,10 @@ class ConcreteCtx(_Base):
     def bool(self, name):
         return bool(self._get(name))
 
+    def float(self, name):
+        import struct
+        return struct.unpack('>d', bytes.fromhex(self._get(name)))[0]
+
     def choice(self, name, k):
         return self._get(name)
 
@@ -230,6 +234,13 @@ def make_symctx_class():
             self.ex.inputs[name] = ('str', items)
             return vtypes.VStr._mk(list(items))
 
+        def float(self, name):
+            from . import symfloat
+            v = z3.FP(name, symfloat.F64)
+            f = symfloat.SymFloat(v)
+            self.ex.inputs[name] = ('float', f)
+            return f
+
         def bool(self, name):
             b = core.SymBool(z3.Bool(name))
             self.ex.inputs[name] = ('bool', b)
@@ -315,5 +326,24 @@ def make_symctx_class():
 
         def V(self, pubkey, h, sig):
             return keystub.V(pubkey, h, sig)
+
+        _ufs = {}
+
+        def uf(self, name, out_bits, *args):
+            """uninterpreted function application; args are (int-like, width) pairs or byte strings"""
+            parts = []
+            for a in args:
+                if isinstance(a, tuple):
+                    v, w = a
+                    parts.append(v.tw(w) if isinstance(v, core.SymInt) else z3.BitVecVal(v, w))
+                else:
+                    for x in vtypes._items(a):
+                        parts.append(x.tw(8) if isinstance(x, core.SymInt) else z3.BitVecVal(x, 8))
+            sig = (name, out_bits, tuple(p.size() for p in parts))
+            f = SymCtx._ufs.get(sig)
+            if f is None:
+                f = z3.Function('%s_%d' % (name, len(SymCtx._ufs)), *([z3.BitVecSort(p.size()) for p in parts] + [z3.BitVecSort(out_bits)]))
+                SymCtx._ufs[sig] = f
+            return core.SymInt.from_bv(f(*parts), 0, (1 << out_bits) - 1, False)
 
     return SymCtx
